@@ -50,3 +50,10 @@ def replay(prop, path):
         return r.returncode
     print('no replayer for', prop)
     return 2
+
+
+def setup_all():
+    """compile everything the quick checks need so that they start fast"""
+    for v in ('fast', 'san'):
+        vlib.build_variant(v)
+    compile_bin('refdiff', ['checks/refdiff.cc'], 'fast', ref=True)
